@@ -57,7 +57,7 @@ class UserInplace(torch.nn.Module):
     """a user post-module that works in place on the tensor it is given"""
 
     def forward(self, x):
-        x.mul_(2.0)
+        x.mul_(0.5)
         x.clamp_(min=-3.0)
         return x
 STYPE_ORDER_DOC = None   # the oracle never assumes an order
